@@ -116,6 +116,10 @@ type Gen struct {
 	KVs   []util.Uint160
 	kvName map[util.Uint160]int
 	AllKVs []util.Uint160 // every scenario contract ever deployed (destroyed ones too)
+	// Churn is a dedicated whale candidate that is never picked by the random kinds: it registers, votes for
+	// itself, sits in the committee for an epoch, withdraws its vote, unregisters (its candidate record is dropped),
+	// then comes back - the life-cycle that exercises caches of per-candidate values across node restarts.
+	Churn neotest.SingleSigner
 	nvar  int
 	// Stats counts generated transaction kinds.
 	Stats  map[string]int
@@ -134,6 +138,7 @@ func DefaultWeights() map[string]int {
 func New(t testing.TB, net *chainkit.Net, bc *core.Blockchain, seed int64, nacc int) *Gen {
 	g := &Gen{T: t, Net: net, BC: bc, E: net.Executor(t, bc), R: rand.New(rand.NewSource(seed)), Cands: map[int]bool{}, kvName: map[util.Uint160]int{},
 		Stats: map[string]int{}, Weights: DefaultWeights()}
+	g.Churn = neotest.NewSingleSigner(wallet.NewAccountFromPrivateKey(chainkit.Key("acct-churn")))
 	for i := 0; i < nacc; i++ {
 		g.Accts = append(g.Accts, neotest.NewSingleSigner(wallet.NewAccountFromPrivateKey(chainkit.Key(fmt.Sprintf("acct-%d", i)))))
 	}
@@ -207,6 +212,8 @@ func (g *Gen) Bootstrap() []*transaction.Transaction {
 		txs = append(txs, g.tx(v, g.hash(nativenames.Gas), "transfer", g.E.Validator.ScriptHash(), a.ScriptHash(), int64(3000_00000000), nil))
 		txs = append(txs, g.tx(v, g.hash(nativenames.Neo), "transfer", g.E.Validator.ScriptHash(), a.ScriptHash(), int64(5_000_000+g.R.Intn(8_000_000)), nil))
 	}
+	txs = append(txs, g.tx(v, g.hash(nativenames.Gas), "transfer", g.E.Validator.ScriptHash(), g.Churn.ScriptHash(), int64(5000_00000000), nil))
+	txs = append(txs, g.tx(v, g.hash(nativenames.Neo), "transfer", g.E.Validator.ScriptHash(), g.Churn.ScriptHash(), int64(14_000_000), nil))
 	// the committee's multisig account pays for committee-signed transactions (policy, roles)
 	txs = append(txs, g.tx(v, g.hash(nativenames.Gas), "transfer", g.E.Validator.ScriptHash(), g.E.Committee.ScriptHash(), int64(5000_00000000), nil))
 	return txs
@@ -458,6 +465,25 @@ func (g *Gen) safeDeploy(a neotest.SingleSigner, c *neotest.Contract) (tx *trans
 	return g.tx([]neotest.Signer{a}, g.hash(nativenames.Management), "deploy", nb, mb)
 }
 
+// churnTx returns the scheduled life-cycle transaction of the Churn candidate for the next block, if any.
+func (g *Gen) churnTx() *transaction.Transaction {
+	sc := []neotest.Signer{g.Churn}
+	pub := g.Churn.Account().PublicKey().Bytes()
+	neo := g.hash(nativenames.Neo)
+	switch (g.BC.BlockHeight() + 1) % 26 {
+	case 3, 17:
+		g.Stats["churn"]++
+		return g.tx(sc, neo, "registerCandidate", pub)
+	case 4, 18:
+		return g.tx(sc, neo, "vote", g.Churn.ScriptHash(), pub)
+	case 13:
+		return g.tx(sc, neo, "vote", g.Churn.ScriptHash(), nil)
+	case 14:
+		return g.tx(sc, neo, "unregisterCandidate", pub)
+	}
+	return nil
+}
+
 // NextTxs builds up to max transactions valid together (filtered through the reference node's own mempool).
 func (g *Gen) NextTxs(max int) []*transaction.Transaction {
 	var cand []*transaction.Transaction
@@ -474,6 +500,9 @@ func (g *Gen) NextTxs(max int) []*transaction.Transaction {
 				break
 			}
 		}
+	}
+	if tx := g.churnTx(); tx != nil {
+		cand = append(cand, tx)
 	}
 	var txs []*transaction.Transaction
 	for _, tx := range cand {
